@@ -29,7 +29,7 @@ ASSUMPTIONS = [
     "ACL patterns never split the rows of one rulebook (rule,key): they are the rulebook's patterns, widened (*, truncation + ~) or narrowed to one key",
     "rulebook logics emit only the row or its negation (default, undo_redo, ordered)",
 ]
-FLOORS = {"quick": {"patches_checked": 2000, "commands_checked": 3000, "uncovered_rows_checked": 3000, "cant_delete_rows_checked": 150, "composition_checked": 2000, "front_runs_with_acl": 300, "front_runs_empty_acl": 10, "front_runs_acl_safe": 150, "flat_vendor_cases": 400},
+FLOORS = {"quick": {"patches_checked": 2000, "commands_checked": 3000, "uncovered_rows_checked": 3000, "cant_delete_rows_checked": 150, "composition_checked": 2000, "front_runs_with_acl": 300, "front_runs_empty_acl": 10, "front_runs_acl_safe": 150, "flat_vendor_cases": 400, "second_devices_with_shared_acl": 800, "shared_subrule_acl_cases": 300},
           "thorough": {"patches_checked": 60000, "commands_checked": 90000, "uncovered_rows_checked": 90000, "cant_delete_rows_checked": 4000, "composition_checked": 60000}}
 VENDORS = c01.BLOCK_VENDORS
 
@@ -39,7 +39,29 @@ def plan(tier, seed):
     return [{"mode": "random", "tier": tier, "seed": seed, "shard": k, "nshards": n} for k in range(n)]
 
 
-def make_case(seed, flat=False):
+def add_shared_subrule(rng, acl, U):
+    """two overlapping parent rules: the broad one owns a nested rule that has a %global child of its own, the narrow one
+    (matching only key k1) hands a catch-all %global down: rows of key k1 reach the nested rule with more inherited
+    globals than rows of other keys do"""
+    cands = [ur for ur in U if ur.children and ur.pat.split()[-1] == "*" and not ur.glob
+             and any(c.children and c.pat != "~" for c in ur.children)]
+    if not cands:
+        return False
+    ur = rng.choice(cands)
+    cr = rng.choice([c for c in ur.children if c.children and c.pat != "~"])
+    gcs = [g for g in cr.children if g.pat != "~"]
+    if not gcs:
+        return False
+    gc = rng.choice(gcs)
+    words = ur.pat.split()
+    broad = A.AclRule(ur.pat, children=[A.AclRule(cr.pat, children=[A.AclRule(gc.pat, glob=True)])])
+    narrow = A.AclRule(" ".join(words[:-1] + ["k1"]), children=[A.AclRule("~", glob=True)])
+    GA.tag_generator([broad, narrow], "g0")
+    acl[0:0] = [narrow, broad] if rng.random() < 0.5 else [broad, narrow]
+    return True
+
+
+def make_case(seed, flat=False, shared=False):
     rng = random.Random(seed)
     if flat:
         vname = sorted(c01.FLAT_VENDORS)[rng.randrange(len(c01.FLAT_VENDORS))]
@@ -63,6 +85,8 @@ def make_case(seed, flat=False):
         GA.tag_generator(a, "g%d" % i)
         acl += a
     mutated = G.mutate_tree(rng, old, U, rate=0.5)
+    if shared:
+        add_shared_subrule(random.Random(seed ^ 0x5A), acl, U)
     return vname, U, old, acl, mutated
 
 
@@ -145,17 +169,19 @@ def check_untouched(snap, alive, al, ag, prefix, acc, w, U=None):
                                   dict(w, row=list(path)))
 
 
-def check_case(seed, acc, flat=False):
+def check_case(seed, acc, flat=False, shared=False):
     from annet.api import _diff_and_patch
     from annet.annlib.rbparser.acl import compile_acl_text
     from annet.annlib.patching import apply_acl
-    vname, U, old, acl, mutated = make_case(seed, flat)
+    vname, U, old, acl, mutated = make_case(seed, flat, shared)
+    if shared:
+        acc.count("shared_subrule_acl_cases")
     v, prefix, exitw, hw, fmt = c01.vendor_env(vname)
     exits = {exitw} | c01.EXIT_EXTRA
     rtext, atext = RB.render(U), A.render(acl)
     if not atext.strip():
         return None
-    w = {"seed": seed, "flat": flat, "vendor": vname, "rulebook": rtext, "acl": atext, "old": plain(old)}
+    w = {"seed": seed, "flat": flat, "shared": shared, "vendor": vname, "rulebook": rtext, "acl": atext, "old": plain(old)}
     if flat:
         acc.count("flat_vendor_cases")
     try:
@@ -223,14 +249,33 @@ def check_case(seed, acc, flat=False):
                           dict(w, commands_twice=[list(p) for p in paths2]))
     except Exception as e:
         acc.violation("C02/exception-composition/%s" % type(e).__name__, "composition raised", dict(w, error=repr(e)[:300]))
+    # (g) a second device of the same kind handled in the same process with the same ACL text: the compiled ACL is cached and shared
+    if seed % 2 == 0 or shared:
+        rng2 = random.Random(seed ^ 0xB0B)
+        old_b = G.gen_tree(rng2, U, foreign=0.5, fill=0.7)
+        mut_b = G.mutate_tree(rng2, old_b, U, rate=0.5)
+        new_b = unplain(A.filter_tree(plain(mut_b), al, ag, prefix, "property"))
+        w2 = dict(w, second_device=True, old=plain(old_b), new=plain(new_b), first_device_old=w["old"])
+        try:
+            _, patch_b = _diff_and_patch(c01.Dev(hw), old_b, new_b, compile_acl_text(atext, vname), None, False, rb=rb)
+            paths_b = [tuple(p) for p in fmt.cmd_paths(patch_b)]
+        except Exception as e:
+            acc.violation("C02/exception-second-device/%s" % type(e).__name__, "_diff_and_patch raised on a second device sharing the ACL", dict(w2, error=repr(e)[:300]))
+            return w
+        w2["commands"] = [list(p) for p in paths_b]
+        acc.count("second_devices_with_shared_acl")
+        judge_patch(acc, w2, vname, U, old_b, paths_b, al, ag, tag="", flat=flat)
     return w
 
 
-def judge_patch(acc, w, vname, U, old, paths, al, ag, tag=""):
+def judge_patch(acc, w, vname, U, old, paths, al, ag, tag="", flat=False):
     """execute `paths` on a device holding `old` and evaluate clauses (a)-(c) against the compiled reference ACL (al, ag)"""
     v, prefix, exitw, hw, fmt = c01.vendor_env(vname)
     exits = {exitw} | c01.EXIT_EXTRA
-    dev = D.BlockDevice(D.from_tree(old), U, prefix, exits, strict_undo_redo=False)
+    if flat:
+        dev = D.FlatDevice(D.from_tree(old), U, c01.FLAT_VENDORS[vname], strict_undo_redo=False)
+    else:
+        dev = D.BlockDevice(D.from_tree(old), U, prefix, exits, strict_undo_redo=False)
     snap = {}
     snapshot(dev.root, (), snap)
     try:
@@ -325,6 +370,39 @@ def check_front(seed, acc, safe=False):
     al, ag = A.compile_level(ref_acl, ideal=True)
     unc = judge_patch(acc, w, vname, U, old, paths, al, ag, tag="")
     acc.case(["front", vname, rtext, w["acl"], w["old"], w["commands"]], nontrivial=bool(unc and paths))
+    # the deploy front end (CliDeployerJob) on the same front-end result and options must hand the driver the same commands
+    import types as _t
+    import annet.api as API
+    import annet.deploy as AD
+    from annet.annlib.command import CommandList
+    seen = {}
+
+    class Drv:
+        def apply_deploy_rulebook(self, hw_, cmd_paths, do_finalize=True, do_commit=True):
+            seen["paths"] = [tuple(p) for p in cmd_paths]
+            return CommandList()
+
+        def build_exit_cmdlist(self, hw_):
+            return CommandList()
+    orig_rb, orig_gd = API.rulebook.get_rulebook, AD.get_deployer
+    API.rulebook.get_rulebook = lambda hw_: rb
+    AD.get_deployer = lambda: Drv()
+    try:
+        job = API.CliDeployerJob(device, _t.SimpleNamespace(acl_safe=safe, dont_commit=False))
+        job.parse_result(res)
+    except Exception as e:
+        acc.violation("C02/deploy-front-exception/%s" % type(e).__name__, "CliDeployerJob.parse_result raised on the front end's result", dict(w, error=repr(e)[:300]))
+        return w
+    finally:
+        API.rulebook.get_rulebook, AD.get_deployer = orig_rb, orig_gd
+    acc.count("deploy_front_runs")
+    dpaths = seen.get("paths", [])
+    if dpaths != paths:
+        w3 = dict(w, deploy_commands=[list(p) for p in dpaths])
+        before = len(acc.violations)
+        judge_patch(acc, dict(w3, commands=w3["deploy_commands"]), vname, U, old, dpaths, al, ag, tag="/deploy-front-end")
+        if len(acc.violations) == before:
+            acc.violation("C02/deploy-front-end-differs-from-patch-front-end", "with the same options the deploy job sends other commands than `annet patch` shows", w3)
     return w
 
 
@@ -333,7 +411,7 @@ def run_shard(spec, acc):
         if spec["witness"].get("front"):
             check_front(spec["witness"]["seed"], acc, safe=bool(spec["witness"].get("safe")))
         else:
-            check_case(spec["witness"]["seed"], acc, flat=bool(spec["witness"].get("flat")))
+            check_case(spec["witness"]["seed"], acc, flat=bool(spec["witness"].get("flat")), shared=bool(spec["witness"].get("shared")))
         return
     tier, k, n = spec["tier"], spec["shard"], spec["nshards"]
     total = 2400 if tier == "quick" else 70000
@@ -348,3 +426,5 @@ def run_shard(spec, acc):
             check_front(rng.randrange(1 << 48), acc, safe=True)
         if j % 4 == 2:
             check_case(rng.randrange(1 << 48), acc, flat=True)
+        if j % 4 == 0:
+            check_case(rng.randrange(1 << 48), acc, shared=True)
